@@ -3,13 +3,13 @@
    the lines the harness prints for the implementation. *)
 open Conv
 
-(* "f a t e signer" x k  ->  slots *)
+(* "flag addrzero addr timezero sigempty signer" x k  ->  slots *)
 let rec slots_of k toks =
   if k = 0 then ([], toks) else
     match toks with
-    | f :: a :: t :: e :: sg :: rest ->
-      let sg = int_of_string sg in
-      let s = mk_slot (nat_of_int (int_of_string f)) (a = "1") (t = "1") (e = "1")
+    | f :: a :: ad :: t :: e :: sg :: rest ->
+      let sg = int_of_string sg and ad = int_of_string ad in
+      let s = mk_slot (nat_of_int (int_of_string f)) (a = "1") (if ad < 0 then None else Some (nat_of_int ad)) (t = "1") (e = "1")
           (if sg < 0 then None else Some (nat_of_int sg)) in
       let (l, rest') = slots_of (k - 1) rest in (s :: l, rest')
     | _ -> failwith "bad slot"
@@ -28,6 +28,7 @@ let rec take k l = if k = 0 then ([], l) else match l with x :: r -> let (a, b) 
 let string_of_vresult = function
   | VOk -> "ok" | VNilCommit -> "nilcommit" | VBasic -> "basic" | VSize -> "size" | VHeight -> "height" | VBlock -> "blockid"
   | VSig i -> Printf.sprintf "sig %d" (int_of_nat i)
+  | VAddr i -> Printf.sprintf "addr %d" (int_of_nat i)
   | VPower (g, nd) -> Printf.sprintf "power %s %s" (string_of_z g) (string_of_z nd)
 
 let () =
